@@ -112,12 +112,17 @@ func (ti *TypeInfo) Enter(node ast.Node) {
 		ti.directive = schema.Directive(nameVal)
 		ti.inDirective = true
 	case *ast.OperationDefinition:
+		var root *Object
 		if node.Operation == ast.OperationTypeQuery {
-			ttype = schema.QueryType()
+			root = schema.QueryType()
 		} else if node.Operation == ast.OperationTypeMutation {
-			ttype = schema.MutationType()
+			root = schema.MutationType()
 		} else if node.Operation == ast.OperationTypeSubscription {
-			ttype = schema.SubscriptionType()
+			root = schema.SubscriptionType()
+		}
+		if root != nil {
+			// a schema without this root type: no type, not a nil *Object in the interface
+			ttype = root
 		}
 		ti.typeStack = append(ti.typeStack, ttype)
 	case *ast.InlineFragment:
